@@ -26,6 +26,38 @@ reports, string annotations resolved through `f.__globals__` (`AnnotationsContex
 def fromRuntime (env : NameEnv) (d : DefArgs) : Option SigOut :=
   fromInspect (globalsLookup env) (inspectOf env d)
 
+/-! ## Checker-level state
+
+One `Checker` serves every module of a run. The only state of the signature route that outlives a
+function is `ArgSpecCache.known_argspecs` (arg_spec.py:382; read :607, written :621), a dict keyed by
+the **function object**; `generic_bases_cache` is keyed by the class. (The set of such caches and
+their key expressions is regenerated from the source on every run, `Generated/ArgSpecCaches.lean`,
+and pinned by `Props/C13.lean : argspec_caches_registered`.) -/
+
+/-- identity of a function object: (module, function) -/
+abbrev FnId := Nat × Nat
+
+structure CheckerSt where
+  /-- `ArgSpecCache.known_argspecs` -/
+  known : List (FnId × Option SigOut)
+  deriving Inhabited
+
+/-- `ArgSpecCache._cached_get_argspec` (arg_spec.py:599): the signature of function object `id`, whose
+module environment is `env` and whose header is `d`, asked of a Checker in state `st` -/
+def rtSigSt (st : CheckerSt) (id : FnId) (env : NameEnv) (d : DefArgs) : CheckerSt × Option SigOut :=
+  match st.known.lookup id with
+  | some r => (st, r)
+  | none => let r := fromRuntime env d; (⟨st.known ++ [(id, r)]⟩, r)
+
+/-- a multi-module run: signatures asked one after the other of the same Checker -/
+def runSt : CheckerSt → List (FnId × NameEnv × DefArgs) → List (Option SigOut)
+  | _, [] => []
+  | st, (id, env, d) :: rest => (rtSigSt st id env d).2 :: runSt (rtSigSt st id env d).1 rest
+
+/-- the same requests, each answered on its own (a fresh Checker per function) -/
+def runAlone (run : List (FnId × NameEnv × DefArgs)) : List (Option SigOut) :=
+  run.map fun x => fromRuntime x.2.1 x.2.2
+
 /-- the signature as the shared binder model (Core/Sig.lean, `Signature.bind_arguments`, verified
 against CPython in C05) consumes it: names, kinds, default presence -/
 def toBindSig (s : SigOut) : List Param := s.params.map fun p => ⟨p.name, p.kind, p.dflt.isSome⟩
